@@ -24,13 +24,15 @@ RELAX_SMALL_EXTRA = {"quick": (), "thorough": (1.5,)}          # over-relaxation
 MAX_ITER = {"quick": (1, 2, 3, 7), "thorough": (0, 1, 2, 3, 4, 7, 12)}
 CONV_TOL = (1e-4, 1e-12)
 # (beta_laplace, laplacian) pairs of the constrained solver
-CONSTR = {"quick": (("0", "path"), ("0.1", "path"), ("0.1", "zeros")),
-          "thorough": (("0", "path"), ("0.1", "path"), ("0.1", "zeros"), ("0", "zeros"))}
+# ("1.5", "path"): a penalty strong enough to drive cells negative (x_j - beta (Lx)_j < 0), so that the zero clip is exercised
+# for observed and for unobserved (zero column) cells alike
+CONSTR = {"quick": (("0", "path"), ("0.1", "path"), ("0.1", "zeros"), ("1.5", "path")),
+          "thorough": (("0", "path"), ("0.1", "path"), ("0.1", "zeros"), ("1.5", "path"), ("0", "zeros"))}
 ALPHA = {"quick": (0.01, 1.0), "thorough": (0.01, 1.0, 10.0)}
 TIKHONOV = ("identity(None)", "second-difference(singular)", "first-cell-only(diag(1,0,..), singular)")
 # reduced parameter product used only for the 3x3 matrices of the thorough tier
 REDUCED = {"x0": ("none", "array"), "relax": (0.5, 1.0), "stops": ((1, 1e-4), (3, 1e-4), (7, 1e-4), (12, 1e-12)),
-           "constr": (("0.1", "path"),)}
+           "constr": (("0.1", "path"), ("1.5", "path"))}
 
 ALPHABET = {
     "W": "all matrices of the listed shapes with entries in the listed set (zero rows/columns, rank deficiency included)",
